@@ -6,6 +6,7 @@
 -/
 import ClairModel.Proofs.Gem
 import ClairModel.Proofs.Maven
+import ClairModel.Proofs.Semver
 
 set_option linter.unusedSimpArgs false
 set_option linter.unusedVariables false
@@ -263,5 +264,147 @@ theorem maven_reject (pre post : List Char) (r : Char) (hu : Maven.uniIsDigit r 
         rw [hb''.1, if_pos rfl]
         exact flushInt_bad hb''.2.2
       simp [this]
+
+/-! ### Masterminds/semver, gobin.ParseVersion -/
+
+theorem ascii_of_isDigit {c : Char} (h : isDigit c = true) : c.toNat < 128 := by
+  unfold isDigit at h
+  simp only [Bool.and_eq_true, decide_eq_true_eq] at h
+  have := le_of_char_le h.2
+  have e : ('9' : Char).toNat = 57 := by decide
+  omega
+
+theorem ascii_of_isAlpha {c : Char} (h : isAlpha c = true) : c.toNat < 128 := by
+  unfold isAlpha isLower isUpper at h
+  simp only [Bool.or_eq_true, Bool.and_eq_true, decide_eq_true_eq] at h
+  rcases h with h | h
+  · have := le_of_char_le h.2
+    have e : ('z' : Char).toNat = 122 := by decide
+    omega
+  · have := le_of_char_le h.2
+    have e : ('Z' : Char).toNat = 90 := by decide
+    omega
+
+theorem ascii_of_isIdChar {c : Char} (h : Semver.isIdChar c = true) : c.toNat < 128 := by
+  unfold Semver.isIdChar at h
+  simp only [Bool.or_eq_true, decide_eq_true_eq] at h
+  rcases h with (h | h) | h
+  · exact ascii_of_isDigit h
+  · exact ascii_of_isAlpha h
+  · rw [h]; decide
+
+def Ascii (l : List Char) : Prop := ∀ c ∈ l, c.toNat < 128
+
+theorem ascii_append {a b : List Char} (ha : Ascii a) (hb : Ascii b) : Ascii (a ++ b) := by
+  intro c hc
+  rcases List.mem_append.1 hc with h | h
+  · exact ha c h
+  · exact hb c h
+
+theorem ascii_cons {x : Char} {l : List Char} (hx : x.toNat < 128) (hl : Ascii l) : Ascii (x :: l) := by
+  intro c hc
+  rcases List.mem_cons.1 hc with rfl | h
+  · exact hx
+  · exact hl c h
+
+theorem ascii_validIds {s : List Char} (h : Semver.validIds s = true) : Ascii s := by
+  intro c hc
+  by_cases hd : c = '.'
+  · rw [hd]; decide
+  · obtain ⟨p, hp, hcp⟩ := mem_splitOn hd s hc
+    unfold Semver.validIds at h
+    have := List.all_eq_true.1 h p hp
+    simp only [Bool.and_eq_true] at this
+    exact ascii_of_isIdChar (List.all_eq_true.1 this.2 c hcp)
+
+theorem spanD_append : ∀ s : List Char, (Semver.spanD s).1 ++ (Semver.spanD s).2 = s
+  | [] => rfl
+  | c :: cs => by
+    unfold Semver.spanD
+    by_cases h : isDigit c = true
+    · simp only [h, if_true, List.cons_append, spanD_append cs]
+    · simp only [h]; rfl
+
+theorem ascii_alldig {l : List Char} (h : AllDig l) : Ascii l := fun c hc => ascii_of_isDigit (h c hc)
+
+/-- If the rest after a `(\.[0-9]+)?` group is ASCII, so is the text before it. -/
+theorem ascii_dotNum (s : List Char) (h : Ascii (Semver.dotNum s).2) : Ascii s := by
+  unfold Semver.dotNum at h
+  split at h
+  · rename_i r
+    by_cases he : (Semver.spanD r).1.isEmpty = true
+    · simpa [he] using h
+    · simp only [he] at h
+      have hs := spanD_append r
+      rw [← hs]
+      exact ascii_cons (by decide) (ascii_append (ascii_alldig (Semver.spanD_fst r)) h)
+  · exact h
+
+theorem cutPlus_append : ∀ r : List Char,
+    r = (Semver.cutPlus r).1 ++ (match (Semver.cutPlus r).2 with | none => [] | some m => '+' :: m)
+  | [] => rfl
+  | c :: cs => by
+    unfold Semver.cutPlus
+    by_cases h : c = '+'
+    · simp [h]
+    · simp only [h, if_false, List.cons_append]
+      congr 1
+      exact cutPlus_append cs
+
+theorem ascii_tailGroups {t : List Char} {pm : List Char × List Char} (h : Semver.tailGroups t = some pm) : Ascii t := by
+  unfold Semver.tailGroups at h
+  split at h
+  · intro c hc; cases hc
+  · rename_i r
+    by_cases hv : Semver.validIds (Semver.cutPlus r).1 = true
+    · simp only [hv, Bool.not_true, Bool.false_eq_true, if_false] at h
+      have hr := cutPlus_append r
+      refine ascii_cons (by decide) ?_
+      rw [hr]
+      apply ascii_append (ascii_validIds hv)
+      split at h
+      · rename_i hn; rw [hn]; intro c hc; cases hc
+      · rename_i m hm
+        rw [hm]
+        by_cases hvm : Semver.validIds m = true
+        · exact ascii_cons (by decide) (ascii_validIds hvm)
+        · simp [hvm] at h
+    · simp [hv] at h
+  · rename_i m
+    by_cases hvm : Semver.validIds m = true
+    · exact ascii_cons (by decide) (ascii_validIds hvm)
+    · simp [hvm] at h
+  · cases h
+
+/-- The expression of `semver.NewVersion` / `gobin.ParseVersion` matches ASCII
+    texts only: a text containing a rune from U+0080 up (or an ill-formed
+    byte) has no match. -/
+theorem semver_ascii {s : List Char} {g : Semver.Groups} (h : Semver.groups s = some g) : Ascii s := by
+  unfold Semver.groups at h
+  simp only at h
+  by_cases he : (Semver.spanD (Semver.stripV s)).1.isEmpty = true
+  · rw [if_pos he] at h; cases h
+  · rw [if_neg he] at h
+    split at h
+    · cases h
+    · rename_i pm hpm
+      have h3 := ascii_tailGroups hpm
+      have h2 := ascii_dotNum _ h3
+      have h1 := ascii_dotNum _ h2
+      have hb : Ascii (Semver.stripV s) := by
+        rw [← spanD_append (Semver.stripV s)]
+        exact ascii_append (ascii_alldig (Semver.spanD_fst _)) h1
+      unfold Semver.stripV at hb
+      split at hb
+      · exact ascii_cons (by decide) hb
+      · exact hb
+
+theorem semver_reject (s : List Char) (c : Char) (hm : c ∈ s) (h : 128 ≤ c.toNat) :
+    Semver.parse s = none ∧ Semver.gobinParse s = none := by
+  have hg : Semver.groups s = none := by
+    cases hh : Semver.groups s with
+    | none => rfl
+    | some g => have := semver_ascii hh c hm; omega
+  simp [Semver.parse, Semver.gobinParse, hg]
 
 end ClairModel.NonAscii
